@@ -502,7 +502,7 @@ def r21_guard_drop(f, guard_calls):
         f.apply(edits, "R21")
 
 
-REROOT = [("std::io::BufReader", "iox::BufReader"), ("std::io::Stdout", "iox::Stdout"), ("std::str::from_utf8", "strs::from_utf8"), ("std::fs::read_dir", "fs_dir::read_dir"), ("std::fs::", "fs::"), ("std::mem::", "mem::"), ("std::thread::", "thread::"), ("std::path::", "path::"), ("std::env::", "env::"), ("std::process::", "process::")]
+REROOT = [("std::io::BufReader", "iox::BufReader"), ("std::io::BufWriter", "iow::BufWriter"), ("std::io::Stdout", "iox::Stdout"), ("std::str::from_utf8", "strs::from_utf8"), ("std::fs::read_dir", "fs_dir::read_dir"), ("std::fs::", "fs::"), ("std::mem::", "mem::"), ("std::thread::", "thread::"), ("std::path::", "path::"), ("std::env::", "env::"), ("std::process::", "process::")]
 
 
 def r17_reroot(f):
